@@ -70,8 +70,30 @@ Proof. vm_compute. reflexivity. Qed.
 Theorem arr_tuple_label_absent :
   forall g ls a b, NoDup ls -> ~ In (LPair a b) ls -> locate g (SArr ls) (LPair a b) = Raise KeyError.
 Proof.
-  intros g ls a b ND Hn. pose proof (locate_arr_spec g ls (LPair a b) ND) as H. apply pos_None in Hn. rewrite Hn in H. exact H.
+  intros g ls a b ND Hn. rewrite locate_SArr. unfold fallback, arr_eq.
+  replace (map (fun y => label_eqb (obj_cast y) (LPair a b)) ls) with (map (fun y => label_eqb y (LPair a b)) ls)
+    by (apply map_ext; intros y; destruct y; reflexivity).
+  rewrite (true_positions_nodup 0 (LPair a b) ls ND). apply pos_None in Hn. rewrite Hn. reflexivity.
 Qed.
+
+(* ---------- KEPT FINDING: a NumPy datetime64[ns] array span cannot be addressed by its own labels ----------
+   The fallback lookup compares against np.asarray(span, dtype=object), which holds the nanoseconds as Python ints: a present label
+   is answered KeyError (so are open slices, which look up the span's ends), while the INTEGER of the same nanoseconds finds the period. *)
+Definition ex_ns_arr := SArr [LTs 946512000000000000; LTs 946598400000000000; LTs 946684800000000000].
+Theorem arr_datetime64ns_present_label_refuted :
+  exists ls x, NoDup ls /\ In x ls /\ forall g, locate g (SArr ls) x = Raise KeyError.
+Proof.
+  exists [LTs 946512000000000000; LTs 946598400000000000], (LTs 946598400000000000).
+  split; [repeat constructor; simpl; intuition discriminate|]. split; [simpl; tauto|]. intros g. apply locate_arr_ns_label.
+Qed.
+Example ex_ns_arr_open_slice : get_item no_pandas (mkC ex_ns_arr 0 [("X", mkSeries DFloat 1 [10; 11; 12])] [] false) "X" (KSlice None None None) = Raise (A := rd Z) KeyError.
+Proof. vm_compute. reflexivity. Qed.
+Example ex_ns_arr_int_label_aliases :
+  get_item no_pandas (mkC ex_ns_arr 0 [("X", mkSeries DFloat 1 [10; 11; 12])] [] false) "X" (KLabel (LInt 946598400000000000)) = Ret (RScalar 11).
+Proof. vm_compute. reflexivity. Qed.
+(* the guard obj_stable of span_ok excludes exactly this class *)
+Example ex_ns_arr_not_stable : ~ obj_stable [LTs 946512000000000000].
+Proof. intros H. inversion H as [|? ? E _]. discriminate. Qed.
 Example ex_arr_tuple_label_len2 : locate no_pandas (SArr [LInt 2; LInt 5]) (LPair 2 3) = Raise KeyError.
 Proof. vm_compute. reflexivity. Qed.
 Example ex_arr_tuple_label_len1 : get_item no_pandas (mkC (SArr [LInt 5]) 0 [("X", mkSeries DFloat 1 [10])] [] false) "X" (KLabel (LPair 2 5)) = Raise (A := rd Z) KeyError.
